@@ -109,4 +109,13 @@ theorem signal_sites_as_modelled :
                    ("threadpool_destroy", "thr", "while (pool->count > 0)"), ("resultq_next", "pool", ""),
                    ("resultq_finish", "rq", "")] := by decide
 
+/-- every `pthread_cond_signal(&x->c)` of threadpool.c is issued while the calling thread holds `x->m`, the mutex of the same
+    object: the signal cannot overtake the release of the mutex, so the thread it wakes — which may go on to destroy the
+    condition variable and free the object (`resultq_destroy`, `thread_destroy`) — cannot do so before the signal call has
+    been made (the machines model a signal as part of the critical section it sits in) -/
+theorem signals_under_their_mutex :
+    signalLocks.length = signalSites.length ∧
+    signalLocks.all (fun s => s.2.2.contains s.2.1) = true ∧
+    signalLocks.map (fun s => (s.1, s.2.1)) = signalSites.map (fun s => (s.1, s.2.1)) := by decide
+
 end Mtbl.Owner
